@@ -52,7 +52,7 @@ ExactCover(s, sub, hashes) ==
 (* logical name of a Manifest: path without the compression suffix (the     *)
 (* harness supplies `lp` on every Manifest record)                          *)
 AllMf(s) == MfPaths(s)
-DistSet(s)   == UNION { { <<MfAt(s, mp).lp, e>> : e \in { x \in Ents(MfAt(s, mp)) : x.tag = "DIST" } } : mp \in AllMf(s) }
+DistSet(s)   == UNION { { <<MfAt(s, mp).lp, e.p, e.size, e.hx>> : e \in { x \in Ents(MfAt(s, mp)) : x.tag = "DIST" } } : mp \in AllMf(s) }
 IgnoreSet(s) == UNION { { Full(MfAt(s, mp), e) : e \in { x \in Ents(MfAt(s, mp)) : x.tag = "IGNORE" } } : mp \in AllMf(s) }
 TsSet(s)     == UNION { { <<MfAt(s, mp).lp, e.ts>> : e \in { x \in Ents(MfAt(s, mp)) : x.tag = "TIMESTAMP" } } : mp \in AllMf(s) }
 TagsOf(s, f) == UNION { { e.tag : e \in { x \in Ents(MfAt(s, mp)) : x.tag \in FileTagSet /\ Full(MfAt(s, mp), x) = f } } : mp \in AllMf(s) }
@@ -61,11 +61,13 @@ FilePaths(s) == UNION { { Full(MfAt(s, mp), e) : e \in { x \in Ents(MfAt(s, mp))
 (* entries for paths outside sub, per logical Manifest; MANIFEST entries on  *)
 (* the chain above sub are exempt (all MANIFEST entries when a forced       *)
 (* rewrite of every Manifest was requested)                                  *)
-OutsideSet(s, sub, force) ==
-    UNION { { <<MfAt(s, mp).lp, Full(MfAt(s, mp), e), e.tag, e.size, e.ck>> :
+OutsideSetA(s, sub, aliases, force) ==
+    UNION { { <<MfAt(s, mp).lp, Full(MfAt(s, mp), e), e.tag, e.size, e.hx>> :
                 e \in { x \in Ents(MfAt(s, mp)) :
                           /\ x.tag \in FileTagSet
                           /\ ~IsPfx(sub, Full(MfAt(s, mp), x))
+                          /\ ~\E a \in aliases : IsPfx(a, Full(MfAt(s, mp), x))
                           /\ ~(x.tag = "MANIFEST" /\ (force \/ IsPfx(Dir(Full(MfAt(s, mp), x)), sub))) } }
             : mp \in AllMf(s) }
+OutsideSet(s, sub, force) == OutsideSetA(s, sub, {}, force)
 =============================================================================
